@@ -824,6 +824,12 @@ func (c *DefaultPrimaryConnector) Connect(r *Replica) error {
 			Timeout:             10 * time.Second, // Wait 10 seconds for ping ack before assuming connection is dead
 			PermitWithoutStream: true,             // Allow pings even when there are no active streams
 		}),
+		// Accept what the primary is configured to send (16MB max message size);
+		// the default client limit of 4MB rejects a batch of large values forever
+		grpc.WithDefaultCallOptions(
+			grpc.MaxCallRecvMsgSize(16*1024*1024),
+			grpc.MaxCallSendMsgSize(16*1024*1024),
+		),
 	}
 
 	// Set up transport security
